@@ -417,8 +417,10 @@ pub fn scan_and_mark_chemistry(mathml: Element) -> bool {
         false
     };
 
+    let mut was_scanned = false;
     if is_chemistry || is_chemistry_sanity_check(mathml) {
         assert_eq!(mathml.children().len(), 1);
+        was_scanned = true;
         let likelihood = likely_chem_formula(child);
         if likelihood >= CHEMISTRY_THRESHOLD {
             child.set_attribute_value(MAYBE_CHEMISTRY, likelihood.to_string().as_str());
@@ -438,12 +440,25 @@ pub fn scan_and_mark_chemistry(mathml: Element) -> bool {
 
     if child.attribute(CHEM_FORMULA).is_none() && child.attribute(CHEM_EQUATION).is_none() {
         if !has_maybe_chemistry(mathml) {
-            return true;    // quick check avoids needing a second parse due to removing added elements
+            // quick check avoids needing a second parse due to removing added elements -- but the scan un-marks table cells that are
+            // not chemistry itself (removing the mrows and invisible operators added to them), so those cells need the second parse
+            return !(was_scanned && has_table_cell(mathml));
         }
         return !is_changed_after_unmarking_chemistry(mathml);
     } else {
         return true;
     }
+}
+
+/// Returns true if there is an 'mtd' somewhere in 'mathml'
+fn has_table_cell(mathml: Element) -> bool {
+    if name(&mathml) == "mtd" {
+        return true;
+    }
+    if is_leaf(mathml) {
+        return false;
+    }
+    return mathml.children().iter().any(|&child| child.element().is_some_and(has_table_cell));
 }
 
 // returns the marked attr value or None
